@@ -116,6 +116,17 @@ def nFloatOr : NormId := ("attr", "if _ is None: @ = float(num_keypoints) else: 
 
 def nAsTuples : NormId := ("attr", "as_tuples = lambda ps: [tuple(p) for p in ps] if ps else ps; @ = as_tuples(_)")
 
+/-- `LatticeConstraints.__init__` since fix ebf18ed: the local helper
+`as_list(c) = [c] if isinstance(c, tuple) and c and isinstance(c[0], int) else c` first (the single-tuple
+wrap of `Lattice.__init__` plus the `and c` guard: an empty tuple is left alone instead of raising
+`IndexError` — `wrapSingle` leaves `.s true []` alone too), THEN the canonicaliser. The labels are the
+literal statements, in source order, that lead from the parameter to the attribute. -/
+def nWrapCanonTrust : NormId := ("attr", "def as_list(constraints): if isinstance(constraints, tuple) and constraints and isinstance(constraints[0], int): return [constraints] return constraints; _ = as_list(_); @ = utils.canonicalize_trust(_)")
+/-- full text (the translator cuts labels at 240 characters and appends a hash of the FULL text):
+`def as_list(constraints): … return constraints; _ = as_list(_); as_tuples = lambda ps: [tuple(p) for p
+in ps] if ps else ps; @ = as_tuples(_)` -/
+def nWrapAsTuples : NormId := ("attr", "def as_list(constraints): if isinstance(constraints, tuple) and constraints and isinstance(constraints[0], int): return [constraints] return constraints; _ = as_list(_); as_tuples = lambda ps: [tuple(p) for p in ps] if ps else p…#38455b94")
+
 /-- `[tuple(p) for p in ps] if ps else ps` (fix 7780660): a non-empty sequence of sequences becomes a
 LIST of TUPLES; anything else is left alone (`tuple(3)` raises: there is no object) -/
 def isSeqItem : Item → Bool
@@ -147,6 +158,9 @@ def valNorm (n : NormId) (o : String → Val) (v : Val) : Val :=
     linearBroadcast (match o "num_input_dims" with | .a (.int k) => k.toNat | _ => 0) v
   else if n = nFloatOr then toFloat (o "num_keypoints") v
   else if n = nAsTuples then asTuples v
+  -- the COMPOSITIONS (not the parts): `(0, 1)` alone is left a tuple by `asTuples`, `[(0, 1)]` after the wrap
+  else if n = nWrapCanonTrust then orSelf v ((canonTrust (wrapSingle v)).map trustsVal)
+  else if n = nWrapAsTuples then asTuples (wrapSingle v)
   else v
 
 def valSem : Sem Val := ⟨valNorm, Val.truthy⟩
@@ -154,7 +168,7 @@ def valSem : Sem Val := ⟨valNorm, Val.truthy⟩
 /-- the modelled normaliser ids -/
 def modelledNorms : List NormId :=
   [idNorm, ("attr", "keras_base"), nCanonMono0, nCanonMono1, nCanonTrust, nCanonUni, nWrapSingle, nLinearMono, nFloatOr,
-   nAsTuples]
+   nAsTuples, nWrapCanonTrust, nWrapAsTuples]
 
 /-- composite normalisers that are NOT modelled: Keras' `serialize ∘ get` of initialisers /
 regularisers / layers / nested configs, and the wrap of a single joint-unimodality tuple (nesting
@@ -170,6 +184,10 @@ def opaqueNorms : List NormId := [
   ("[keras.regularizers.serialize(r, use_legacy_format=True) for r in @]",
    "@ = []; if _: if callable(_): _ = [_] for reg in _: @.append(keras.regularizers.get(reg))"),
   ("attr", "if isinstance(_, tuple) and len(_) == 2 and isinstance(_[1], six.string_types): @ = [_] else: @ = _"),
+  -- the SAME wrap in `LatticeConstraints.__init__` (fix ebf18ed), spelled as a rebinding of the parameter
+  -- followed by a plain assignment; `Val` has no nesting depth 3, the typed model is `Tfl.Verify.wrapJU`
+  -- (idempotent: `Tfl.C11.wrapJU_idem`)
+  ("attr", "if isinstance(_, tuple) and len(_) == 2 and isinstance(_[1], six.string_types): _ = [_]; @ = _"),
   ("keras.initializers.serialize(@, use_legacy_format=True)",
    "@ = create_kernel_initializer(_, self.lattice_sizes, self.monotonicities, self.output_min, self.output_max, self.unimodalities, self.joint_unimodalities)"),
   ("keras.initializers.serialize(@, use_legacy_format=True)", "@ = create_kernel_initializer(kernel_initializer_id=_)"),
